@@ -130,7 +130,7 @@ func (w *World) CompareAccounts(a *AppState, prop string, balances, nonces bool,
 				w.fail(prop, "account %s: balance changed by %s in this block (now %s), expected change %s (model effects this block: %v)", k[:8], dGot.String(), got.Bal.Dec(), dM.String(), keysOf(causes))
 			}
 		}
-		if nonces && got.Nonce != m.Nonce && !w.Dead[k] {
+		if nonces && got.Nonce != m.Nonce {
 			w.fail(prop, "account %s: nonce %d, expected %d", k[:8], got.Nonce, m.Nonce)
 		}
 	}
